@@ -52,6 +52,8 @@ Inductive loc :=
 | LClient (c : nat) (f : cfield) (* *http.Client number c (0 = *httphelper.DefaultHTTPClient), caller-supplied *)
 | LSlice (s : nat)               (* backing array of a caller's slice (options, scopes), spare capacity included *)
 | LCfg (c : nat)                 (* caller's *oauth2.Config number c (Endpoint.AuthStyle and the rest) *)
+| LArg (a : nat)                 (* a caller-supplied VALUE the API lets one pass to several constructors: an issuer-function
+                                    value (op.IssuerFromHost(..) / IssuerFromForwardedOrHost(..)), a *op.Config, a KeySet *)
 | LStor (s : nat)                (* storage-owned DeviceAuthorizationState number s (Audience) *)
 | LInst (i : nat) (f : ifield)   (* field of instance i: unshared until its constructor returns, never written afterwards except lazily *)
 | LLocked (i : nat).             (* state of instance / storage i that is only touched under its mutex:
@@ -67,7 +69,7 @@ Definition loc_eqb (a b : loc) : bool := if loc_eq_dec a b then true else false.
 
 (* shared state in the sense of the property text: anything that is not private to one instance *)
 Definition is_shared_state (l : loc) : bool :=
-  match l with LG _ | LClient _ _ | LSlice _ | LCfg _ | LStor _ => true | LInst _ _ | LLocked _ => false end.
+  match l with LG _ | LClient _ _ | LSlice _ | LCfg _ | LArg _ | LStor _ => true | LInst _ _ | LLocked _ => false end.
 Definition locked (l : loc) : bool := match l with LLocked _ => true | _ => false end.
 Definition owner (l : loc) : option nat := match l with LInst i _ | LLocked i => Some i | _ => None end.
 
@@ -103,6 +105,7 @@ Inductive popt :=                 (* op.Option *)
 | PIDHVerifierOpts (sl : nat)     (* WithIDTokenHintVerifierOpts(sl...) *)
 | PKeySets                        (* WithAccessTokenKeySet / WithIDTokenHintKeySet *)
 | PCors (v : val)                 (* WithCORSOptions *)
+| PIssuerFn (a : nat)             (* the provider is built from the caller's issuer-function value number a (shared between providers) *)
 | PLogger.                        (* WithLogger *)
 
 Inductive ropt :=                 (* rp.Option *)
@@ -135,6 +138,7 @@ Inductive op :=
 | TEExchange (i c : nat)                           (* tokenexchange.ExchangeToken *)
 | KSVerify (i c : nat)                             (* remoteKeySet.VerifySignature *)
 | ClientCall (c : nat) (k : ccall)                 (* client.Discover / client.Call*Endpoint with a caller holding client c *)
+| FindKey (sl : nat)                               (* oidc.FindMatchingKey / FindKey(kid, use, alg, keys(sl)...): a pure function of a caller-owned slice passed variadically *)
 | HandlerReq (i c : nat) (k : hkind) (r : nat).    (* request r served by a handler value of instance i: rp.CodeExchangeHandler /
                                                       AuthURLHandler callback, an rp.RefreshTokens call, a provider authorize request.
                                                       Its per-request data (code verifier, state, token) lives in the request, never in the
@@ -151,7 +155,7 @@ Definition target (o : op) : nat :=
   | NewProvider i _ _ | NewLegacyServer i _ | NewRPOIDC i _ _ _ | NewRPOAuth i _ _
   | NewRS i _ _ _ | NewTE i _ _ _ | NewKeySet i _ _ => i
   | ProvReq i _ _ | RPCall i _ _ | RSIntrospect i _ | TEExchange i _ | KSVerify i _ | HandlerReq i _ _ _ => i
-  | DevGetAudience _ | ClientCall _ _ => 0
+  | DevGetAudience _ | ClientCall _ _ | FindKey _ => 0
   end.
 
 Definition inst (i : nat) (f : ifield) (s : src) := EWrite (LInst i f) s.
@@ -164,8 +168,10 @@ Definition popt_effs (i : nat) (o : popt) : list eff :=
       [inst i (FEp EAuth) (SConst a); inst i (FEp EToken) (SConst t); inst i (FEp EUserinfo) (SConst u);
        inst i (FEp ERevoke) (SConst r); inst i (FEp EEndSession) (SConst s); inst i (FEp EKeys) (SConst k)]
   | PInterceptors sl | PATVerifierOpts sl | PIDHVerifierOpts sl => [inst i FSliceRef (SCopy (LSlice sl))]
-  | PKeySets | PLogger => [inst i FMisc (SConst 1)]
+  | PKeySets => [inst i FMisc (SCopy (LArg 4))]     (* the caller's KeySet value (shared) *)
+  | PLogger => [inst i FMisc (SConst 1)]
   | PCors v => [inst i FCors (SConst v)]
+  | PIssuerFn a => [inst i FMisc (SCopy (LArg a))]
   end.
 
 Definition ropt_effs (i : nat) (o : ropt) : list eff :=
@@ -222,7 +228,7 @@ Definition effects (o : op) : list eff :=
       end
   | RSIntrospect _ _ | TEExchange _ _ => []
   | KSVerify i _ => [EWrite (LLocked i) (SConst 1)]
-  | ClientCall _ _ => []
+  | ClientCall _ _ | FindKey _ => []
   | HandlerReq i _ k _ => match k with HCodeExchange | HRefresh => [EWrite (LLocked i) (SConst 1)] | _ => [] end
   end.
 
@@ -235,7 +241,9 @@ Fixpoint rp_client (opts : list ropt) (acc : nat) : nat :=
 (* locations read without being copied into a modelled location *)
 Definition extra_reads (o : op) : list loc :=
   match o with
-  | NewProvider _ _ _ | NewLegacyServer _ _ => []
+  | NewProvider _ _ _ => [LArg 3]                                     (* the *op.Config (shared by the providers of a run) *)
+  | NewLegacyServer _ _ => []
+  | FindKey sl => [LSlice sl]
   | NewRPOIDC _ _ _ opts => client_locs (rp_client opts 0)           (* client.Discover *)
   | NewRPOAuth _ _ _ => []
   | NewRS _ c static _ | NewTE _ c static _ => if static then [] else client_locs (ctor_client c)
@@ -263,7 +271,7 @@ Definition apply (o : op) (h : heap) : heap := run (effects o) h.
 Definition tids (o : op) : list nat :=
   match o with
   | ProvReq i stor _ => [i; stor]
-  | DevGetAudience _ | ClientCall _ _ => []
+  | DevGetAudience _ | ClientCall _ _ | FindKey _ => []
   | _ => [target o]
   end.
 
@@ -271,7 +279,7 @@ Definition tids (o : op) : list nat :=
 Definition obs_reads (o : op) : list loc :=
   match o with
   | ProvReq i _ QDiscovery =>                                          (* advertised endpoints, claims and scopes *)
-      map (fun e => LInst i (FEp e)) all_eps ++ [LG GClaims; LG GScopes]
+      map (fun e => LInst i (FEp e)) all_eps ++ [LG GClaims; LG GScopes; LInst i FFlag]   (* FFlag: http:// issuer *)
   | RPCall i c _ | RSIntrospect i c | TEExchange i c =>
       [LClient c CCheckRedirect; LInst i FURL]         (* are redirects followed?  which issuer are requests / assertions addressed to? *)
   | KSVerify i _ => [LInst i FURL]                     (* which issuer's tokens are accepted? *)
